@@ -13,6 +13,8 @@ module Pos :
 
   val pred_double : positive -> positive
 
+  val pred_N : positive -> coq_N
+
   type mask = Pos.mask =
   | IsNul
   | IsPos of positive
@@ -30,11 +32,23 @@ module Pos :
 
   val mul : positive -> positive -> positive
 
+  val iter : ('a1 -> 'a1) -> 'a1 -> positive -> 'a1
+
   val compare_cont : comparison -> positive -> positive -> comparison
 
   val compare : positive -> positive -> comparison
 
   val eqb : positive -> positive -> bool
+
+  val coq_Nsucc_double : coq_N -> coq_N
+
+  val coq_Ndouble : coq_N -> coq_N
+
+  val coq_land : positive -> positive -> coq_N
+
+  val coq_lxor : positive -> positive -> coq_N
+
+  val shiftl : positive -> coq_N -> positive
 
   val iter_op : ('a1 -> 'a1 -> 'a1) -> positive -> 'a1 -> 'a1
 
